@@ -16,12 +16,13 @@
 (* controller.UpdateFanSpeed (calculateTargetPwm -> curve.Evaluate (recursive) -> setPwm). *)
 EXTENDS Curves
 
-CONSTANTS Win,        \* tempRollingWindowSize
-          SensorIds,  \* set of sensor ids
-          CurveCfg,   \* curve id -> [t: "lin"|"steps"|"fn", sensor, mn, mx, steps, fn, members (sequence of ids)]
-          FanCfg      \* fan id -> [curve, gmin, mx]
-
-VARIABLES savg,   \* sensor -> rational [num, den] (milli-degrees)
+\* the configuration is a variable that no action changes (one trace file holds runs of many configurations):
+\*   scf.win      tempRollingWindowSize
+\*   scf.sensors  set of sensor ids
+\*   scf.curves   curve id -> [t: "lin"|"steps"|"fn", sensor, mn, mx, steps, fn, members (sequence of ids)]
+\*   scf.fans     fan id -> [curve, gmin, mx]
+VARIABLES scf,
+          savg,   \* sensor -> rational [num, den] (milli-degrees)
           cval,   \* curve -> last evaluated value (CurrentValue, what API and metrics show)
           fpwm,   \* fan -> PWM last written (-1: none yet)
           up,     \* fan -> TRUE while every poll since the fan's last cycle was a rise (history)
@@ -29,8 +30,12 @@ VARIABLES savg,   \* sensor -> rational [num, den] (milli-degrees)
           fsnap,  \* fan -> sensor state its last cycle saw (history)
           sact    \* last action (observation)
 
-sysvars == <<savg, cval, fpwm, up, fcv, fsnap, sact>>
+sysvars == <<scf, savg, cval, fpwm, up, fcv, fsnap, sact>>
 
+Win == scf.win
+SensorIds == scf.sensors
+CurveCfg == scf.curves
+FanCfg == scf.fans
 CurveIds == DOMAIN CurveCfg
 FanIds == DOMAIN FanCfg
 
@@ -64,13 +69,14 @@ SensorsOf(c) == {CurveCfg[d].sensor : d \in {d \in Closure(c) : CurveCfg[d].t # 
 \* request of the direct algorithm for curve value v, fan limits gmin..mx, identity map
 Req(f, v) == Rescale(v, FanCfg[f].gmin, FanCfg[f].mx)
 
-SysInit(avg0) ==
-  /\ savg = [s \in SensorIds |-> SRat(avg0[s], 1)]
-  /\ cval = [c \in CurveIds |-> 0]
-  /\ fpwm = [f \in FanIds |-> -1]
-  /\ up = [f \in FanIds |-> FALSE]
-  /\ fcv = [f \in FanIds |-> -1]
-  /\ fsnap = [f \in FanIds |-> savg]
+SysInit(c, avg0) ==
+  /\ scf = c
+  /\ savg = [s \in c.sensors |-> SRat(avg0[s], 1)]
+  /\ cval = [d \in DOMAIN c.curves |-> 0]
+  /\ fpwm = [f \in DOMAIN c.fans |-> -1]
+  /\ up = [f \in DOMAIN c.fans |-> FALSE]
+  /\ fcv = [f \in DOMAIN c.fans |-> -1]
+  /\ fsnap = [f \in DOMAIN c.fans |-> [s \in c.sensors |-> SRat(avg0[s], 1)]]
   /\ sact = [a |-> "init"]
 
 Poll(s, x) ==
@@ -78,11 +84,11 @@ Poll(s, x) ==
   \* a reading below the current average ends the "temperatures only rose" stretch of the fans that use s
   /\ up' = [f \in FanIds |-> up[f] /\ (s \in SensorsOf(FanCfg[f].curve) => x * savg[s].den >= savg[s].num)]
   /\ sact' = [a |-> "poll", s |-> s, x |-> x]
-  /\ UNCHANGED <<cval, fpwm, fcv, fsnap>>
+  /\ UNCHANGED <<scf, cval, fpwm, fcv, fsnap>>
 
 PollFail(s) ==
   /\ sact' = [a |-> "fail", s |-> s]
-  /\ UNCHANGED <<savg, cval, fpwm, up, fcv, fsnap>>
+  /\ UNCHANGED <<scf, savg, cval, fpwm, up, fcv, fsnap>>
 
 FanCycle(f) ==
   LET c == FanCfg[f].curve IN
@@ -92,7 +98,7 @@ FanCycle(f) ==
   /\ fcv' = [fcv EXCEPT ![f] = Val(c, savg)]
   /\ fsnap' = [fsnap EXCEPT ![f] = savg]
   /\ sact' = [a |-> "cycle", f |-> f, cv |-> Val(c, savg)]
-  /\ UNCHANGED savg
+  /\ UNCHANGED <<scf, savg>>
 
 \* ---- properties of the composition ----------------------------------------------
 MonotoneCurve(c) == \A d \in Closure(c) :
